@@ -228,7 +228,7 @@ def run_mixture(case, R):
         dv = float(np.abs(a['affiliation'] - b['affiliation']).max())
         judge('C04.trace', dv, tol_post * 10, 'trace', f'trace/{kind}/{case["stream"]}', f'{kind}: in-loop posterior of iteration {a["iteration"]} changes by {dv:.3e} under rescaling', dev=dv)
     if l1 is not None and np.isfinite(l1) and np.isfinite(l2):
-        judge('C04.posterior', abs(l1 - l2), 1e-9 * max(1, abs(l1)), 'll', 'log_likelihood/cacgmm', f'CACGMM.log_likelihood changes from {l1} to {l2} under rescaling')
+        judge('C04.posterior', abs(l1 - l2), (1e-9 if not single else 1e-4) * max(1, abs(l1)), 'll', 'log_likelihood/cacgmm', f'CACGMM.log_likelihood changes from {l1} to {l2} under rescaling')
     spans = np.log10(np.abs(g).max() / np.abs(g).min())
     if spans >= 50 or case['gain'] == 'near_one':
         R.mark_nontrivial('mixture', kind, case['stream'], case['gain'], case['opts'], s.K, s.D, case['lead'])
